@@ -84,6 +84,26 @@ func (e *Env) resolveType(s string) (types.Type, string) {
 		}
 		return nil, "(Array Int " + srt + ")"
 	}
+	if strings.HasPrefix(s, "gomap[") {
+		// the Go map type map[K]V (a reference to a map object)
+		depth := 0
+		for i := 5; i < len(s); i++ {
+			if s[i] == '[' {
+				depth++
+			}
+			if s[i] == ']' {
+				depth--
+				if depth == 0 {
+					kt, _ := e.resolveType(s[6:i])
+					vt, _ := e.resolveType(s[i+1:])
+					if kt == nil || vt == nil {
+						e.fg.fail("cannot resolve type %s", s)
+					}
+					return types.NewMap(kt, vt), ""
+				}
+			}
+		}
+	}
 	if strings.HasPrefix(s, "map[") {
 		// spec-level total map: map[K]V -> (Array K V)
 		depth := 0
@@ -561,6 +581,9 @@ func (e *Env) binary(x *SExpr) Val {
 func (e *Env) selVal(x *SExpr, a Val, name string) Val {
 	fg := e.fg
 	if a.Ty == nil {
+		if a.Sort == "Iface" {
+			a = Val{T: fmt.Sprintf("(i.val %s)", a.T), Sort: "Int"}
+		}
 		if a.Sort == "Int" {
 			if ty, ok := fg.g.ct.GhostFields["any."+name]; ok {
 				t, srt := e.resolveType(ty)
@@ -1195,7 +1218,7 @@ func (e *Env) quant(x *SExpr) Val {
 		binders = append(binders, fmt.Sprintf("(%s %s)", bn, srt))
 		term := bn
 		// absolute-position rewriting for slice indices
-		if srt == "Int" && t != nil && isInteger(t) {
+		if srt == "Int" && (t == nil || isInteger(t)) {
 			if sl := findSliceIndexedBy(x.A, v.Name); sl != nil && !mentions(sl, v.Name) {
 				func() {
 					defer func() {
